@@ -1,6 +1,7 @@
 package scen
 
 import (
+	"bytes"
 	"encoding/hex"
 	"fmt"
 	"os"
@@ -8,6 +9,7 @@ import (
 	"sort"
 	"strings"
 	"sync"
+	"unicode"
 
 	protocol "github.com/hujm2023/go-sms-protocol"
 	"github.com/hujm2023/go-sms-protocol/cmpp"
@@ -175,6 +177,20 @@ func setFields(v reflect.Value, m *spec.Msg, site string, enc bool) {
 			b := val.B
 			if enc && hexEnc[site+"."+f.GoField] {
 				b = []byte(hex.EncodeToString(b))
+				// hex digits in either case denote the same octets (the spelling is a function of the value, so
+				// that a run stays a function of its tape)
+				if len(val.B) > 0 {
+					switch val.B[len(val.B)-1] % 4 {
+					case 1:
+						b = bytes.ToUpper(b)
+					case 2:
+						for i := range b {
+							if i%2 == 0 {
+								b[i] = byte(unicode.ToUpper(rune(b[i])))
+							}
+						}
+					}
+				}
 			}
 			if gf.Kind() == reflect.String {
 				gf.SetString(string(b))
@@ -311,6 +327,11 @@ func fillExtras(c *core.Chooser, p protocol.PDU, pd *spec.PDU) {
 // sets, the header length field excluded) and returns the differing paths.
 func goDiff(a, b any) []string {
 	var out []string
+	site := ""
+	if t := reflect.TypeOf(a); t.Kind() == reflect.Ptr {
+		pkg := t.Elem().PkgPath()
+		site = pkg[strings.LastIndexByte(pkg, '/')+1:] + "." + t.Elem().Name()
+	}
 	var walk func(path string, x, y reflect.Value)
 	walk = func(path string, x, y reflect.Value) {
 		switch x.Kind() {
@@ -378,6 +399,10 @@ func goDiff(a, b any) []string {
 			}
 		case reflect.String:
 			if x.String() != y.String() {
+				// a field holding hex digits on both sides denotes octets: the spelling's case is not part of the value
+				if k := site + "." + path; hexEnc[k] && hexDec[k] && strings.EqualFold(x.String(), y.String()) {
+					return
+				}
 				out = append(out, path)
 			}
 		case reflect.Uint, reflect.Uint8, reflect.Uint16, reflect.Uint32, reflect.Uint64:
